@@ -193,25 +193,48 @@ spec decAt(p Ptr, w int) int :=
   (w == 2 ? dec2(byteAt(p, 0), byteAt(p, 1)) :
   (w == 3 ? dec3(byteAt(p, 0), byteAt(p, 1), byteAt(p, 2)) : dec4(byteAt(p, 0), byteAt(p, 1), byteAt(p, 2), byteAt(p, 3))))
 
-// writes the encoding of p1 and a terminator into the five bytes at p0; (size_t)-1 for a value that has no encoding
-func utf8_char_to_string
+// glibc's c32rtomb in a UTF-8 locale (TRUSTED, observed): rejects negative values and surrogates, and encodes
+// everything else up to 0x7fffffff - beyond U+10FFFF with the obsolete 5- and 6-byte forms
+spec encLenG(c int) int :=
+  (c < 0 || (55296 <= c && c <= 57343)) ? -1 :
+  (c <= 127 ? 1 : (c <= 2047 ? 2 : (c <= 65535 ? 3 : (c <= 2097151 ? 4 : (c <= 67108863 ? 5 : 6)))))
+func c32rtomb
   trusted
-  requires inb(p0, 5)
+  requires encLenG(p1) >= 1 ==> inb(p0, encLenG(p1))
   modifies ddprt.Blk.$m
-  ensures validCp(p1) ==> result == encLen(p1) && byteAt(p0, result) == 0 && (forall k int :: 0 <= k && k < result ==> byteAt(p0, k) == encByte(p1, k))
-  ensures !validCp(p1) ==> result == -1
-  ensures result == -1 || (1 <= result && result <= 4)
-  ensures forall b *Blk, k int :: !(b == p0.B && p0.O <= k && k < p0.O + 5) ==> b.$m[k] == old(b.$m[k])
-// decodes the first character of the C string p0 into *p1; returns its width (0 if malformed)
-func utf8_string_to_char
+  ensures result == encLenG(p1)
+  ensures validCp(p1) ==> (forall k int :: 0 <= k && k < result ==> byteAt(p0, k) == encByte(p1, k))
+  ensures forall b *Blk, k int :: !(b == p0.B && p0.O <= k && k < p0.O + 6) ==> b.$m[k] == old(b.$m[k])
+  ensures forall k int :: encLenG(p1) >= 0 && p0.O + encLenG(p1) <= k ==> p0.B.$m[k] == old(p0.B.$m[k])
+func c_global_state
   trusted
-  requires p0.B != nil ==> (exists n int :: nulAt(p0, n))
-  requires p1 != nil
+  modifies nothing
+// glibc's mbrtoc32 (TRUSTED): decodes the n bytes at p1 if they are one well-formed character
+func mbrtoc32
+  trusted
+  requires p0 != nil && p2 >= 0 && (p2 > 0 ==> inb(p1, p2))
   modifies *int32
-  ensures p0.B == nil ==> result == -1
-  ensures forall n int :: p0.B != nil && nulAt(p0, n) ==> result == widthAt(p0, n)
-  ensures result >= 1 ==> *p1 == decAt(p0, result)
-  ensures forall q *int32 :: q != p1 ==> *q == old(*q)
+  ensures p2 >= 1 && p2 == widthAt(p1, p2) ==> *p0 == decAt(p1, p2)
+  ensures forall q *int32 :: q != p0 ==> *q == old(*q)
+
+// writes the encoding of c and a terminator into the (at least five) bytes at s; (size_t)-1 for a value that is not
+// a Unicode scalar value
+func utf8_char_to_string [C12, C05]
+  requires inb(s, 5)
+  modifies ddprt.Blk.$m
+  ensures validCp(c) ==> result == encLen(c) && byteAt(s, result) == 0 && (forall k int :: 0 <= k && k < result ==> byteAt(s, k) == encByte(c, k))
+  ensures !validCp(c) ==> result == -1
+  ensures result == -1 || (1 <= result && result <= 4)
+  ensures forall b *Blk, k int :: !(b == s.B && s.O <= k && k < s.O + 5) ==> b.$m[k] == old(b.$m[k])
+// decodes the first character of the C string str into *out; returns its width (0 if malformed)
+func utf8_string_to_char [C12]
+  requires str.B != nil ==> (exists n int :: nulAt(str, n))
+  requires out != nil
+  modifies *int32
+  ensures str.B == nil ==> result == -1
+  ensures forall n int :: str.B != nil && nulAt(str, n) ==> result == widthAt(str, n)
+  ensures result >= 1 ==> *out == decAt(str, result)
+  ensures forall q *int32 :: q != out ==> *q == old(*q)
 
 // ================= memory.c: the single allocation entry point =================
 // C05: the caller states the block's true size (and passes the start of a live block, or NULL with size 0)
